@@ -62,7 +62,7 @@ func c16RunH3Again(w *requestWriter, tc *verifh.C01FieldCase, again bool) (field
 	}
 	var buf bytes.Buffer
 	p, bad := verifh.Safely(func() {
-		err = w.writeHeaders(&buf, req, tc.Gzip, nil)
+		err = verifH3WriteRequestHeader(w, &buf, req, tc.Gzip, nil)
 	})
 	if bad {
 		return nil, nil, nil, p
@@ -80,7 +80,7 @@ func c16RunH3Again(w *requestWriter, tc *verifh.C01FieldCase, again bool) (field
 		var buf2 bytes.Buffer
 		var err2 error
 		p, bad := verifh.Safely(func() {
-			err2 = w.writeHeaders(&buf2, req, tc.Gzip, nil)
+			err2 = verifH3WriteRequestHeader(w, &buf2, req, tc.Gzip, nil)
 		})
 		if bad {
 			return nil, nil, nil, p
